@@ -625,9 +625,12 @@ func popRoundTrip(gs []*genetics.Genome, spec []string, tb table, res *result) {
 	if spec != nil {
 		cmpTokens("population", spec, text, tb, res)
 	}
-	back, err := genetics.ReadPopulation(strings.NewReader(text), vhu.BaseOptions(len(gs)))
+	// what a file restores does not depend on the reader's options: the population size option equals the number of genomes in
+	// the file, is larger, or is left at zero
+	ropts := vhu.BaseOptions([]int{len(gs), len(gs) + 2, 0}[(len(gs)+len(text))%3])
+	back, err := genetics.ReadPopulation(strings.NewReader(text), ropts)
 	if err != nil {
-		res.fail("codec/population/read", "ReadPopulation rejects what Population.Write wrote: %v", err)
+		res.fail("codec/population/read", "ReadPopulation (reader's PopSize option %d) rejects what Population.Write wrote for %d genomes: %v", ropts.PopSize, len(gs), err)
 		return
 	}
 	if len(back.Organisms) != len(gs) {
